@@ -71,6 +71,7 @@ type SpecFunc struct {
 	Result *STypeExpr
 	Body   SExpr // nil for uninterpreted
 	Rec    bool  // recursive: stays uninterpreted, body only at explicit unfold points
+	Opaque bool  // defined, but kept as an uninterpreted symbol with a quantified defining axiom (usable in triggers)
 	File   string
 	Line   int
 }
@@ -244,14 +245,19 @@ func (cs *ContractSet) LoadFile(path, defaultPkg string) {
 			cur, curLemma = nil, nil
 		case kw == "spec":
 			// spec name(params) type [= body]
-			isRec := false
+			isRec, isOpaque := false, false
 			if strings.HasPrefix(rest, "rec ") {
 				isRec = true
 				rest = strings.TrimSpace(rest[4:])
 			}
+			if strings.HasPrefix(rest, "opaque ") {
+				isOpaque = true
+				rest = strings.TrimSpace(rest[7:])
+			}
 			sf, err := parseSpecFuncDecl(rest)
 			if sf != nil {
 				sf.Rec = isRec
+				sf.Opaque = isOpaque
 			}
 			if err != nil {
 				fail(rc.line, "%v", err)
